@@ -135,6 +135,16 @@ def alphabet_for(name):
 
 def explore(task):
     name, depth = task
+    if name.startswith("c11:"):
+        from vf.props import c11
+        src = c11.REF_PROGRAMS.get(name[4:]) or c11.zoo_program(name[4:])
+
+        def alpha(state, node):
+            return [("start_main",)] if node.depth == 0 else c11.alphabet(state)
+
+        ex = Explorer(src, alpha, monitors=[], depth=depth, max_states=30000)
+        ex.run()
+        return v2x.result_of(ex, {"program": name})
     main, libs = MAINS[name]
     ex = Explorer(main, alphabet_for(name), monitors=[], depth=depth, extra_sources=[lib(l) for l in libs], max_states=30000)
     ex.run()
@@ -147,4 +157,7 @@ def tasks(tier):
     for n in MAINS:
         q, t = heavy.get(n, (8, 11))
         out.append((n, q if tier == "quick" else t))
+    from vf.props import c11
+    for n in list(c11.REF_PROGRAMS) + list(c11.ZOO):
+        out.append(("c11:" + n, 5 if tier == "quick" else 7))
     return out
